@@ -314,7 +314,7 @@ def check_C14(run):
     fams.append(("race-revoked-sk-2parts", dict(over=dict(MaxT=2, Ticks="{1}", MaxKids=5, MaxRecs=1, MaxRevokes=1, RevokeKinds='{"SK"}', EmitEvery=20 if q else 3, OpKinds='{"Enc"}'), procs=("p1", "p2"), parts=("a", "b"),
                                                 ik=("session",), sk=(True,))))
     if not q:
-        fams.append(("race-2parts", dict(over=dict(MaxT=1, Ticks="{1}", MaxKids=5, MaxRecs=2, MaxRevokes=0, EmitEvery=50), procs=("p1", "p2"), parts=("a", "b"), ik=("shared",), sk=(True,))))
+        fams.append(("race-2parts", dict(over=dict(MaxT=1, Ticks="{1}", MaxKids=5, MaxRecs=2, MaxRevokes=0, EmitEvery=10, OpKinds='{"Enc", "Dec"}'), procs=("p1", "p2"), parts=("a", "b"), ik=("shared",), sk=(True,))))
     import eng_conc
     return generic(run, fams, extra=eng_conc.cold_race_part)
 
